@@ -164,6 +164,37 @@ class GenIndex:
             self.mod_of[i] = mod
         for name, lab in self.labels.items():
             lab['fn'] = self.sig_fn_of_line(lab['line'])
+        # injected regions (text between /*<<*/ and /*>>*/): per line, the list of [col_start, col_end) intervals (0-based)
+        self.inj = {}
+        depth_open = False
+        for i, l in enumerate(self.lines, 1):
+            pos, iv = 0, []
+            start = 0 if depth_open else None
+            while True:
+                if depth_open:
+                    j = l.find('/*>>*/', pos)
+                    if j < 0:
+                        iv.append((start, len(l) + 1))
+                        break
+                    iv.append((start, j))
+                    depth_open = False
+                    pos = j + 6
+                else:
+                    j = l.find('/*<<*/', pos)
+                    if j < 0:
+                        break
+                    depth_open = True
+                    start = j
+                    pos = j + 6
+            if iv:
+                self.inj[i] = iv
+
+    def is_injected(self, line, col):
+        """col is 1-based (as in rustc spans)"""
+        for a, b in self.inj.get(line, []):
+            if a <= col - 1 < b:
+                return True
+        return False
 
     def sig_fn_of_line(self, line):
         """Function whose signature/spec region or body contains the line."""
@@ -233,6 +264,18 @@ def classify(res):
             safety = ('arithmetic' in low or 'bit shift' in low or 'division' in low or external_pre)
             props = list(idx.fn_props.get(fn, [])) if safety else list(idx.fn_sem.get(fn, []))
         f = dict(msg=msg, labels=labels, fn=fn, props=props, line=line, rendered=rendered, kind=kind)
+        # a failed step of the injected proof script (an `assert` in a hint, the precondition of a lemma called from a hint): the
+        # proof text no longer fits the code; that is not a violated contract. The function's verdicts are undecided.
+        if kind == 'obligation' and not labels and fn and prim:
+            pl, pc = prim[0]['line_start'], prim[0].get('column_start', 1)
+            in_hint = idx.is_injected(pl, pc)
+            if in_hint and ('assertion failed' in low or ('precondition not satisfied' in low)):
+                f['kind'] = 'proofstep'
+                allp = set(idx.fn_props.get(fn, [])) | set(idx.fn_sem.get(fn, []))
+                for nm, lab in idx.labels.items():
+                    if lab['fn'] == fn:
+                        allp.update(lab['props'])
+                f['props'] = sorted(allp)
         if kind == 'obligation' and not labels and (fn is None or fn in idx.fn_unc):
             # a proof obligation failed in code that carries no contract section: a function the specs do not know (added by
             # a change) or a lemma of the ghost library. The file was processed, so the other functions' verdicts stand;
